@@ -83,6 +83,8 @@ structure Cb where
   enabledInCb : Bool    -- `isEnabled()` as seen inside the callback
   oneshot : Bool
   firedBefore : Nat     -- ghost: callbacks since the last enablement, before this one
+  evLoop : Nat          -- ghost: the loop the event belongs to
+  subscribed : Bool     -- ghost: at entry of onSignal the event was enabled and `sig` was in its set
 deriving Repr, DecidableEq
 
 structure State where
@@ -188,9 +190,9 @@ def newEv (s : State) (l : Nat) : State :=
 def setDisp (s : State) (g : Nat) (d : Disp) : State × Bool :=
   if (s.os g).kind = .tbox then (s, false) else ({ s with os := upd s.os g d }, true)
 
-def appendPipes (pipe : Nat → List Nat) (g : Nat) : List Nat → Nat → List Nat
-  | [] => pipe
-  | l :: ls => appendPipes (upd pipe l (pipe l ++ [g])) g ls
+/-- `for (int fd : write_fds) write(fd, &signo, sizeof signo)` — `write_fds` is a set: one write per loop -/
+def appendPipes (pipe : Nat → List Nat) (g : Nat) (fds : List Nat) : Nat → List Nat :=
+  fun l => if l ∈ fds then pipe l ++ [g] else pipe l
 
 inductive RaiseOut where | killed | ignored | handled
 deriving DecidableEq, Repr
@@ -216,7 +218,8 @@ def evOnSignal (s : State) (l e g : Nat) : State :=
   let v1 := s1.evs e
   let s2 := setEv s1 e { v1 with fired := v1.fired + 1 }
   { s2 with cbs := { ev := e, sig := g, loop := l, enabledInCb := v1.enabled, oneshot := v.oneshot,
-                     firedBefore := v.fired } :: s2.cbs }
+                     firedBefore := v.fired, evLoop := v.loop,
+                     subscribed := v.enabled && v.sigs.contains g } :: s2.cbs }
 
 /-- `for (auto s : todo) s->onSignal(signo)` over the COPY `todo` of the subscriber set -/
 def dispatch (s : State) (l g : Nat) : List Nat → State
